@@ -1,0 +1,15 @@
+//go:build verif
+
+package mongodb
+
+import "go.mongodb.org/mongo-driver/mongo/options"
+
+// SimClientOptions lets the deterministic-simulation checks adjust the driver options
+// (custom dialer into an in-process MongoDB stand-in). Only with the build tag `verif`.
+var SimClientOptions func(*options.ClientOptions)
+
+func applySimClientOptions(o *options.ClientOptions) {
+	if SimClientOptions != nil {
+		SimClientOptions(o)
+	}
+}
